@@ -59,6 +59,8 @@ def gen_plan(rng, index, tier):
         cfg["reactor"] = "gen"
         sym = rng.choice(["full", "full", "third periodic"])
         rings = rng.choice([1, 2, 2])
+        if sym == "full" and rng.random() < 0.15:
+            rings = 3  # (19 assemblies: with a height of its own in each, the file holds more than ten grids)
         bp = {"rings": rings, "symmetry": sym, "nfuel": rng.choice([1, 2]), "plate": rng.random() < 0.5, "plenum": rng.random() < 0.4, "sfp": rng.random() < 0.85, "geom": rng.choice(["hex", "hex_corners_up"])}
         if sym != "full":
             # first third of a two-ring core: centre plus the two cells of ring 2 in the first third
@@ -77,8 +79,8 @@ def gen_plan(rng, index, tier):
             # systems placed at non-integer origins (free coordinates)
             # (the core's z origin stays 0: with a non-zero z origin createAssemblyOfType hands a fresh
             # assembly axial grid bounds taken from the core's *global* mesh - see DESIGN.md 10.3)
-            bp["core_origin"] = [rng.choice([0.0, 1.25, -3.5]), rng.choice([0.0, 2.75]), 0.0]
-            bp["sfp_origin"] = [1234.5, -250.25, 600.75]
+            bp["core_origin"] = [rng.choice([0.0, 1.25, -3.5, 0.1]), rng.choice([0.0, 2.75, 12.3]), 0.0]
+            bp["sfp_origin"] = rng.choice([[1234.5, -250.25, 600.75], [1000.1, -7.77, 600.3]])  # (binary fractions, or not)
         if rng.random() < 0.35:
             # fuel blocks with a pin lattice: components carry multi-index locations
             bp["pins"] = True
@@ -140,7 +142,7 @@ def gen_plan(rng, index, tier):
         elif op == "rotate":
             kw["k"] = rng.choice([1, 2, 3, 5])
         elif op == "std":
-            kw["which"] = rng.choice(["power", "flux", "mgFlux", "keff", "notes", "buLimit", "pdens", "detailedNDens", "percentBuByPin", "nozzleType", "crElevation", "xsType"])
+            kw["which"] = rng.choice(["power", "flux", "mgFlux", "keff", "notes", "buLimit", "pdens", "detailedNDens", "percentBuByPin", "nozzleType", "crElevation", "xsType", "allheights"])
             if kw["which"] in ("nozzleType", "crElevation") and cfg.get("reactor") == "gen":
                 cfg["blueprint"]["nozzle"] = True
         steps.append(c06._mk_step(0, a["name"], pt, op, **kw))
@@ -149,6 +151,9 @@ def gen_plan(rng, index, tier):
         cfg["blueprint"]["pins"] = True
         cfg["blueprint"].setdefault("pinrings", 2)
         cfg["blueprint"]["pinhole"] = True
+    if cfg.get("reactor") == "gen" and cfg["blueprint"].get("rings") == 3:
+        # the large core is there for this: every assembly with a height of its own, from the first node on
+        steps.insert(0, c06._mk_step(0, actors[0]["name"], pts[0], "std", idx=0, u=1, which="allheights"))
     if cfg.get("fuelHandler"):
         st["trackAssems"] = rng.random() < 0.6
         for c in range(n):
@@ -348,6 +353,14 @@ def op_std(d, st, actor):
         for j, bb in enumerate(blks):
             mult = max([int(c.getDimension("mult")) for c in bb if c.getDimension("mult")] or [1])
             bb.p.percentBuByPin = [round(0.01 * u + 0.001 * j + 1e-4 * i, 6) for i in range(mult)]
+    elif w == "allheights":
+        # every assembly gets a fuel height of its own (and with it an axial grid of its own)
+        core = r.core
+        for kk, a in enumerate(sorted(core, key=lambda x: tuple(int(v) for v in x.spatialLocator.getCompleteIndices()[:2]))):
+            fb = [x for x in a if not any(x.hasFlags(f) for f in core.stationaryBlockFlagsList)]
+            if fb:
+                fb[-1].setHeight(fb[-1].getHeight() * (1.0 + 0.01 * (kk + 1)))
+        d.mass_dirty = True
     elif w == "xsType":
         # cross-section types beyond the 26 capital letters are lower-case letters
         b.p.xsType = ["B", "a", "q", "z", "Z"][st["u"] % 5]
